@@ -221,15 +221,14 @@ pub proof fn lemma_stamped_unread(ino: Inode, t: int, gran: int)
     f.air = 'raw_cache::insert_or_update::run'
     f.insert_before_tok(f.fn_kw(), 'pub ')   # visibility only: the nested fn lives in a module of its own here
     f.add_param(W)
-    for callee in ('move_to_back_of_list', 'set_read_only', 'std :: fs :: rename', 'ensure_file_removed'):
-        f.add_arg(callee, TW)
+    f.thread(['move_to_back_of_list', 'set_read_only', 'std :: fs :: rename', 'ensure_file_removed', 'std :: fs :: copy'])
     f.contract(
         requires=[('', 'old(w).inv()'),
                   ('C01 C03 C16:caller-hands-in-a-private-finished-file-for-an-entry-path', 'source_ready(*old(w), pv(from), pv(to))')],
         ensures=[
             INV, BOOK,
             ('C06 C20:at-most-five-filesystem-calls', 'final(w).steps <= old(w).steps + 2 * (5) && final(w).opens == old(w).opens && final(w).published <= old(w).published + 1'),
-            ('C11 C04 C09 C19:set-binds-the-value-fresh-unread-readonly-and-consumes-the-source',
+            ('C11 C04 C09 C19 C18:set-binds-the-value-fresh-unread-readonly-and-consumes-the-source',
              'old(w).solo ==> (r.is_ok() ==> old(w).files.contains_key(pv(from)) && old(w).dirs.contains(parent(pv(to))) '
              '&& final(w).files =~= old(w).files.remove(pv(from)).insert(pv(to), old(w).files[pv(from)]) && final(w).dirs == old(w).dirs '
              '&& final(w).inodes =~= old(w).inodes.insert(old(w).files[pv(from)], published_inode(old(w).inode_at(pv(from)), final(w).now, old(w).gran)) '
@@ -246,8 +245,7 @@ pub proof fn lemma_stamped_unread(ino: Inode, t: int, gran: int)
              'r.is_err() && final(w).hard_faults == old(w).hard_faults ==> final(w).published == old(w).published && final(w).files == old(w).files '
              '&& forall|i: InodeId| old(w).inodes.contains_key(i) && !(old(w).files.contains_key(pv(from)) && i == old(w).files[pv(from)]) ==> #[trigger] final(w).inodes[i] == old(w).inodes[i]'),
         ])
-    f.insert_before('std :: fs :: rename',
-                    'proof { lemma_stamped_unread(old(w).inode_at(pv(from)), w.now, w.gran); }\n        ')
+    f.insert_after_stmt('move_to_back_of_list (', '\n        proof { lemma_stamped_unread(old(w).inode_at(pv(from)), w.now, w.gran); }')
     u.text('}\n')
 
     # ---- insert_or_touch::run --------------------------------------------------------------
@@ -257,8 +255,7 @@ pub proof fn lemma_stamped_unread(ino: Inode, t: int, gran: int)
     f.air = 'raw_cache::insert_or_touch::run'
     f.insert_before_tok(f.fn_kw(), 'pub ')   # visibility only: the nested fn lives in a module of its own here
     f.add_param(W)
-    for callee in ('move_to_back_of_list', 'set_read_only', 'std :: fs :: hard_link', 'ensure_file_removed'):
-        f.add_arg(callee, TW)
+    f.thread(['move_to_back_of_list', 'set_read_only', 'std :: fs :: hard_link', 'ensure_file_removed', 'std :: fs :: copy'])
     f.replace('touch ( to )', 'touch::run(to, Tracked(w))', 'T2-shim-bypass')
     f.contract(
         requires=[('', 'old(w).inv()'),
@@ -266,12 +263,12 @@ pub proof fn lemma_stamped_unread(ino: Inode, t: int, gran: int)
         ensures=[
             INV, BOOK,
             ('C06 C20:at-most-six-filesystem-calls', 'final(w).steps <= old(w).steps + 2 * (6) && final(w).opens == old(w).opens && final(w).published <= old(w).published + 1'),
-            ('C11 C04 C09:put-inserts-fresh-when-absent',
+            ('C11 C04 C09 C18:put-inserts-fresh-when-absent',
              'old(w).solo ==> (r.is_ok() && !old(w).files.contains_key(pv(to)) ==> old(w).files.contains_key(pv(from)) && old(w).dirs.contains(parent(pv(to))) '
              '&& final(w).files =~= old(w).files.remove(pv(from)).insert(pv(to), old(w).files[pv(from)]) && final(w).dirs == old(w).dirs '
              '&& final(w).inodes =~= old(w).inodes.insert(old(w).files[pv(from)], published_inode(old(w).inode_at(pv(from)), final(w).now, old(w).gran)) '
              '&& final(w).hard_faults == old(w).hard_faults && final(w).published == old(w).published + 1)'),
-            ('C11 C04:put-never-overwrites-an-existing-entry',
+            ('C11 C04 C18:put-never-overwrites-an-existing-entry',
              'r.is_ok() && old(w).files.contains_key(pv(to)) ==> old(w).files.contains_key(pv(from)) '
              '&& final(w).files =~= old(w).files.remove(pv(from)) && final(w).dirs == old(w).dirs && final(w).published == old(w).published '
              '&& final(w).hard_faults == old(w).hard_faults'),
@@ -291,8 +288,7 @@ pub proof fn lemma_stamped_unread(ino: Inode, t: int, gran: int)
              'r.is_err() && final(w).hard_faults == old(w).hard_faults ==> final(w).published == old(w).published && final(w).files == old(w).files '
              '&& forall|i: InodeId| old(w).inodes.contains_key(i) && !(old(w).files.contains_key(pv(from)) && i == old(w).files[pv(from)]) ==> #[trigger] final(w).inodes[i] == old(w).inodes[i]'),
         ])
-    f.insert_before('match std :: fs :: hard_link',
-                    'proof { lemma_stamped_unread(old(w).inode_at(pv(from)), w.now, w.gran); }\n        ')
+    f.insert_after_stmt('move_to_back_of_list (', '\n        proof { lemma_stamped_unread(old(w).inode_at(pv(from)), w.now, w.gran); }')
     u.text('}\n')
 
 
